@@ -21,7 +21,7 @@ REQUIRED_EVENTS = ["cells_judged", "history_steps_judged", "many_undefined_cases
 SHARDS = {"quick": 8, "thorough": 16}
 
 POSITIONS = ["item", "operand", "deref_value", "key_times", "key_operands", "body_item", "body_operand", "or_item",
-             "arg_sibling", "arg_nested", "arg_partial_sibling", "arg_partial_nested"]
+             "arg_sibling", "arg_nested", "arg_partial_sibling", "arg_partial_nested", "twice_in_operand", "twice_in_item"]
 DEFINED = ["defined", "undefined", "no_at_name"]
 ORDER = ["user_first", "user_last"]
 WHERE = ["file", "extra"]
@@ -29,7 +29,8 @@ OTHERS = [0, 1, 2]
 
 
 def build(rng, pos, defined, order, where, nother):
-    ref = rng.choice(["@ref", "@r", "@any_x", "@zz9", "@scratch-reg", "@save-all.2", "@a-b"])
+    # ... and names that also occur as decorations of symbols in objdump output (puts@plt, x@got, memcpy@GLIBC_2.14): in a rule they are references
+    ref = rng.choice(["@ref", "@r", "@any_x", "@zz9", "@scratch-reg", "@save-all.2", "@a-b", "@plt", "@got", "@gotpcrel", "@PLT", "@tpoff", "@GLIBC_2.14"])
     body_str = rng.choice(["mov", "push", "ov", "%rax", "rax", "0x10"])
     if pos in ("operand", "body_operand"):
         body_str = rng.choice(["%rax", "rax", "0x10", "%r8"])
@@ -39,11 +40,16 @@ def build(rng, pos, defined, order, where, nother):
         # the definition AND its uses carry a name that does not START with '@': only the name check can object
         ref = rng.choice([ref[1:] + "_m", ref[1:] + "_m", " " + ref, "\t" + ref, "\u00a0" + ref, "x" + ref, "_" + ref])
     target = {"name": ref, "pattern": body_str}
-    if rng.random() < 0.3 and pos not in ("key_times", "key_operands", "deref_value"):
+    if rng.random() < 0.3 and pos not in ("key_times", "key_operands", "deref_value", "twice_in_operand", "twice_in_item"):
         target["pattern"] = [body_str]
     user = None
     if pos == "item":
         pattern = ["call", ref, "ret"]
+    elif pos == "twice_in_operand":
+        # the same string macro written twice in ONE scalar (as in "\\[@any\\+@any\\*8\\]"): every occurrence is a reference
+        pattern = [{"mov": ["%rbx", ref + rng.choice(["", "\\+", ","]) + ref]}]
+    elif pos == "twice_in_item":
+        pattern = ["call", ref + ref]
     elif pos == "or_item":
         pattern = ["call", {"$or": ["nop", ref]}]
     elif pos == "operand":
